@@ -14,6 +14,7 @@ import BB.Driver.OpsRules
 import BB.Driver.OpsTree
 import BB.Driver.OpsPy
 import BB.Driver.OpsPyTape
+import BB.Driver.OpsProver
 
 namespace BB.Driver
 
@@ -153,6 +154,8 @@ def handle (op : String) (args : List String) (text : String) : String :=
     | none => match OpsPy.handle op args text with
     | some r => r
     | none => match OpsPyTape.handle op args text with
+    | some r => r
+    | none => match OpsProver.handle op args text with
     | some r => r
     | none => "BAD-OP"
 
